@@ -104,25 +104,51 @@ pub fn decode(wire: &[u8]) -> Decoded {
         pos = next;
         if size == 0 {
             // ---- last chunk: trailer section + CRLF ----
-            if wire.len() < pos + 2 {
-                if wire.len() == pos + 1 && wire[pos] != b'\r' {
-                    if wire[pos] == b'\n' {
-                        return done(data, Status::Gray { at: pos, why: "bare LF after last chunk" }, complete);
+            // "0 CRLF CRLF" completes the body. A well-formed trailer section (field lines, then an
+            // empty line) is gray: the statement does not cover trailers. Anything else after the
+            // last chunk is a missing or corrupt final line ending.
+            let mut p = pos;
+            let mut trailers = 0usize;
+            loop {
+                let rest = &wire[p..];
+                if rest.is_empty() {
+                    return done(data, Status::Incomplete { state: State::Terminator }, complete);
+                }
+                if rest.starts_with(b"\r\n") {
+                    if trailers == 0 {
+                        return done(data, Status::Complete { consumed: p + 2 }, complete);
                     }
                     return done(data, Status::Gray { at: pos, why: "trailer section" }, complete);
                 }
-                return done(data, Status::Incomplete { state: State::Terminator }, complete);
+                if rest[0] == b'\n' && trailers == 0 {
+                    return done(data, Status::Gray { at: p, why: "bare LF after last chunk" }, complete);
+                }
+                if rest == b"\r" {
+                    return done(data, Status::Incomplete { state: State::Terminator }, complete);
+                }
+                if rest[0] == b'\r' {
+                    return done(data, Status::Malformed { at: p, state: State::Terminator }, complete);
+                }
+                // a trailer field line: token ":" ... CRLF
+                let eol = match rest.windows(2).position(|w| w == b"\r\n") {
+                    Some(i) => i,
+                    None => {
+                        // no complete line: either the input ends inside a trailer line, or this is
+                        // garbage where the final line ending should be - an error either way
+                        return done(data, Status::Incomplete { state: State::Terminator }, complete);
+                    }
+                };
+                let line = &rest[..eol];
+                let ok = match line.iter().position(|&b| b == b':') {
+                    Some(c) if c > 0 => line[..c].iter().all(|&b| b.is_ascii_alphanumeric() || b"!#$%&'*+-.^_`|~".contains(&b)) && !line.contains(&b'\n'),
+                    _ => false,
+                };
+                if !ok {
+                    return done(data, Status::Malformed { at: p, state: State::Terminator }, complete);
+                }
+                trailers += 1;
+                p += eol + 2;
             }
-            if &wire[pos..pos + 2] == b"\r\n" {
-                return done(data, Status::Complete { consumed: pos + 2 }, complete);
-            }
-            if wire[pos] == b'\n' {
-                return done(data, Status::Gray { at: pos, why: "bare LF after last chunk" }, complete);
-            }
-            if wire[pos] == b'\r' {
-                return done(data, Status::Malformed { at: pos, state: State::Terminator }, complete);
-            }
-            return done(data, Status::Gray { at: pos, why: "trailer section" }, complete);
         }
         // ---- chunk data ----
         let avail = (wire.len() - pos) as u64;
@@ -182,6 +208,12 @@ mod tests {
         assert!(matches!(decode(b"\r\n").status, Status::Malformed { .. }));
         let d = decode(b"0\r\n\r");
         assert!(matches!(d.status, Status::Incomplete { state: State::Terminator }));
+        // a corrupted final line ending is not a trailer section
+        assert!(matches!(decode(b"4\r\nwiki\r\n0\r\nX\n").status, Status::Incomplete { .. } | Status::Malformed { .. }));
+        assert!(matches!(decode(b"4\r\nwiki\r\n0\r\n\rX").status, Status::Malformed { .. }));
+        assert!(matches!(decode(b"4\r\nwiki\r\n0\r\nnot a trailer\r\n\r\n").status, Status::Malformed { .. }));
+        assert!(matches!(decode(b"0\r\nX-T: 1\r\nY: 2\r\n\r\n").status, Status::Gray { .. }));
+        assert!(matches!(decode(b"0\r\nX-T: 1\r\n").status, Status::Incomplete { .. }));
         let d = decode(b"");
         assert!(matches!(d.status, Status::Incomplete { state: State::SizeLine }));
     }
